@@ -8,4 +8,9 @@ def triplesBTrees : List Shape := (Shape.bins levelOps sh0 (sh2 unOps levelOps))
 set_option maxRecDepth 100000 in
 theorem triplesB_exact : (triplesBTrees.all fun s => devsExact s.eqn) = true := by decide +kernel
 
+set_option maxRecDepth 100000 in
+/-- every text form of every tree of this part round-trips -/
+theorem triplesB_all : (triplesBTrees.all fun s => roundTripsEqn s.eqn && roundTripsScript s.eqn && roundTripsFilter s.eqn) = true := by
+  decide +kernel
+
 end OjgVerif.JPText
